@@ -3823,7 +3823,7 @@ int EGLPNUM_TYPENAME_ILLlib_getbasis (
 	for (i = 0; i < nrows; i++)
 	{
 		j = qslp->rowmap[i];
-		if (qslp->rangeval && EGLPNUM_TYPENAME_EGlpNumIsNeqqZero (qslp->rangeval[i]))
+		if (qslp->sense[i] == 'R')
 		{
 			switch (lp->vstat[j])
 			{
